@@ -285,6 +285,7 @@ fn run_multi(sc: &Value) {
     panics::install_hook();
     let lives = sc.get("lives").and_then(|x| x.as_array()).cloned().unwrap_or_default();
     emit(json!({"ev":"Place","mode":"multi","lives":lives.len()}));
+    let mut foreign: Vec<(u64, Vec<u8>)> = Vec::new();
     for (li, life) in lives.iter().enumerate() {
         let base = u(life, "base");
         let pages = u(life, "pages") as usize;
@@ -317,6 +318,9 @@ fn run_multi(sc: &Value) {
         for (k, (addr, _)) in funcs.iter().enumerate() {
             watch::add_entry(&format!("f{}", k + 1), *addr, 16.min((fa.base + fa.len as u64 - addr) as usize));
             origs.push(unsafe { std::slice::from_raw_parts(*addr as *const u8, 6) }.to_vec());
+        }
+        for (k, &(fa_addr, _)) in foreign.iter().enumerate() {
+            watch::add_arena(&format!("foreign{}", k + 1), fa_addr, 4096);
         }
         let mut inj = in_lib(InjectorPP::new);
         let mut tramps = Vec::new();
@@ -361,6 +365,32 @@ fn run_multi(sc: &Value) {
         }
         fa.unmap();
         fk.unmap();
+        // the rest of the process: once the library has given a trampoline page back, anybody may get that address.
+        // Somebody does (a hinted, non-fixed mmap) and keeps code there; the following lifetimes must leave it alone.
+        if sc.get("foreign_after_drop").and_then(|x| x.as_bool()).unwrap_or(false) {
+            for t in tramps.iter().filter(|t| **t != 0) {
+                if foreign.iter().any(|f| f.0 == *t) {
+                    continue;
+                }
+                let r = unsafe { interpose::raw_mmap(*t, 4096, libc::PROT_READ | libc::PROT_WRITE, libc::MAP_PRIVATE | libc::MAP_ANONYMOUS, -1, 0) };
+                if r == *t {
+                    let pat: Vec<u8> = (0..4096u32).map(|i| if i % 16 == 0 { 0xB8 } else if i % 16 == 5 { 0xC3 } else { (i % 251) as u8 }).collect();
+                    unsafe {
+                        std::ptr::copy_nonoverlapping(pat.as_ptr(), r as *mut u8, 4096);
+                        interpose::raw_mprotect(r, 4096, libc::PROT_READ | libc::PROT_EXEC);
+                    }
+                    interpose::FOREIGN.lock().unwrap().push((r, 4096));
+                    foreign.push((r, pat));
+                } else if (r as i64) > 0 {
+                    unsafe { interpose::raw_munmap(r, 4096) };
+                }
+            }
+        }
+        for (k, (fa_addr, pat)) in foreign.iter().enumerate() {
+            let mapped = watch::proc_maps().iter().any(|m| m.lo <= *fa_addr && *fa_addr + 4096 <= m.hi);
+            let intact = mapped && unsafe { std::slice::from_raw_parts(*fa_addr as *const u8, 4096) } == &pat[..];
+            emit(json!({"ev":"Foreign","life":li + 1,"idx":k + 1,"addr":a8(*fa_addr),"mapped":mapped,"intact":intact}));
+        }
     }
 }
 
